@@ -84,12 +84,12 @@ func (r *Relay) Validate(
 		SessionBlockHeight: r.Proof.SessionBlockHeight,
 	}
 	// validate unique relay
-	evidence, totalRelays := GetTotalProofs(header, RelayEvidence, maxPossibleRelays, servicerNode.EvidenceStore)
-	if servicerNode.EvidenceStore.IsSealed(evidence) {
+	sealed, unique, totalRelays := EvidenceStatus(header, RelayEvidence, r.Proof, maxPossibleRelays, servicerNode.EvidenceStore)
+	if sealed {
 		return sdk.ZeroInt(), NewSealedEvidenceError(ModuleName)
 	}
 	// get evidence key by proof
-	if !IsUniqueProof(r.Proof, evidence) {
+	if !unique {
 		return sdk.ZeroInt(), NewDuplicateProofError(ModuleName)
 	}
 	// validate not over service
